@@ -422,6 +422,7 @@ func hookSource(full bool) string {
 	b.WriteString("//go:build go1.18\n\npackage jsonapi\n\n")
 	b.WriteString(`import (
 	"fmt"
+	"os"
 	"sort"
 )
 
@@ -439,6 +440,30 @@ var mcHooks *McHooks
 
 // McInstall installs (or, with nil, removes) the hooks.
 func McInstall(h *McHooks) { mcHooks = h }
+
+// VERIF_MC_UNIFORM=reverse|rotate installs a uniform map schedule at start-up;
+// used to run the repository's own test suite on the instrumented build under
+// other iteration orders (conformance of the instrumentation).
+func init() {
+	switch os.Getenv("VERIF_MC_UNIFORM") {
+	case "reverse":
+		mcHooks = &McHooks{MapOrder: func(site, n int) []int {
+			p := make([]int, n)
+			for i := range p {
+				p[i] = n - 1 - i
+			}
+			return p
+		}}
+	case "rotate":
+		mcHooks = &McHooks{MapOrder: func(site, n int) []int {
+			p := make([]int, n)
+			for i := range p {
+				p[i] = (i + 1 + site) % n
+			}
+			return p
+		}}
+	}
+}
 
 `)
 	if full {
